@@ -357,7 +357,7 @@ class Cli:
                 env["LD_PRELOAD"] = self.interposer
                 logpath = os.path.join(d, "entropy.log")
                 env["VERIF_ENT_LOG"] = logpath
-                for k in ("MODE", "SEED", "HEX", "FAIL_AT", "FAIL_FROM", "CAP", "DELAY", "ERRNO"):
+                for k in ("MODE", "SEED", "HEX", "FAIL_AT", "FAIL_FROM", "CAP", "DELAY", "ERRNO", "POSTFAIL_DELAY"):
                     if ent.get(k) is not None:
                         env["VERIF_ENT_" + k] = str(ent[k])
             stdin = bytes.fromhex(spec["stdin_hex"]) if spec.get("stdin_hex") is not None else b""
@@ -440,6 +440,36 @@ class Cli:
             return obs
         finally:
             shutil.rmtree(d, ignore_errors=True)
+
+
+def attribute_entropy(ent_hex, served):
+    """Which requests served these entropy bytes? served: successful entropy records in log order ({thread, seq, bytes}).
+    The bytes may be one whole buffer, a byte-aligned slice of one buffer, or a slice of the concatenation of consecutive
+    buffers served to ONE thread (a tool may ask for more than it needs or fetch in several requests; what counts is that
+    every byte was returned by the source). Returns {thread, first, last, count} (indices into that thread's requests) or None."""
+    by_thread = {}
+    for r in served:
+        by_thread.setdefault(r.get("thread", 0), []).append(r)
+    for t, recs in by_thread.items():
+        stream = "".join(r["bytes"] for r in recs)
+        i = stream.find(ent_hex)
+        while i >= 0 and i % 2:
+            i = stream.find(ent_hex, i + 1)
+        if i < 0:
+            continue
+        # map the hex offsets back to request indices
+        pos, first, last = 0, None, None
+        for k, r in enumerate(recs):
+            end = pos + len(r["bytes"])
+            if first is None and i < end:
+                first = k
+            if i + len(ent_hex) <= end:
+                last = k
+                break
+            pos = end
+        last = last if last is not None else len(recs) - 1
+        return {"thread": t, "first": first, "last": last, "count": len(recs), "seq_first": recs[first].get("seq"), "seq_last": recs[last].get("seq")}
+    return None
 
 
 # --------------------------------------------------------------------------- verdicts
